@@ -1,11 +1,11 @@
 SPECIFICATION Spec
 CONSTANTS
   Deviations <- RealDevs
-  MaxNodes = 3
+  MaxNodes = 4
   MinNodes = 0
   MaxDepth = 2
   MaxBlock = 2
-  Kinds <- AllKinds
+  Kinds <- IfForKinds
   Rich = FALSE
 INVARIANT DesignFaithful
 INVARIANT DeviationsExplain
